@@ -1119,6 +1119,8 @@ def apply_index_offset(
         return expressions
 
     expression = expressions[0]
+    if expression is None or this is None:
+        return expressions
 
     from sqlglot.optimizer.annotate_types import annotate_types
     from sqlglot.optimizer.simplify import simplify
@@ -1126,7 +1128,7 @@ def apply_index_offset(
     if not this.type:
         annotate_types(this, dialect=dialect)
 
-    if t.cast(DataType, this.type).this not in (
+    if not this.type or t.cast(DataType, this.type).this not in (
         DType.UNKNOWN,
         DType.ARRAY,
     ):
@@ -1135,7 +1137,7 @@ def apply_index_offset(
     if not expression.type:
         annotate_types(expression, dialect=dialect)
 
-    if t.cast(DataType, expression.type).this in DataType.INTEGER_TYPES:
+    if expression.type and t.cast(DataType, expression.type).this in DataType.INTEGER_TYPES:
         logger.info("Applying array index offset (%s)", offset)
         expression = simplify(expression + offset)
         return [expression]
